@@ -416,6 +416,27 @@ fn ensure_parent_directory(files: &HashMap<String, MemoryFile>, path: &str) -> V
     Err(VfsErrorKind::Other("Parent path does not exist".into()).into())
 }
 
+/// Verification hook (feature `verif-hooks` only): every `read()` / `write()` on the filesystem handle goes
+/// through these methods (method resolution finds them on `Arc<RwLock<..>>` before auto-deref reaches the
+/// inherent `RwLock` methods), so that every lock acquisition is a scheduling point for the harness.
+#[cfg(feature = "verif-hooks")]
+trait HookedLock {
+    fn read(&self) -> std::sync::LockResult<std::sync::RwLockReadGuard<'_, MemoryFsImpl>>;
+    fn write(&self) -> std::sync::LockResult<std::sync::RwLockWriteGuard<'_, MemoryFsImpl>>;
+}
+
+#[cfg(feature = "verif-hooks")]
+impl HookedLock for MemoryFsHandle {
+    fn read(&self) -> std::sync::LockResult<std::sync::RwLockReadGuard<'_, MemoryFsImpl>> {
+        crate::verif_hooks::lock_point("memory::lock::read");
+        (**self).read()
+    }
+    fn write(&self) -> std::sync::LockResult<std::sync::RwLockWriteGuard<'_, MemoryFsImpl>> {
+        crate::verif_hooks::lock_point("memory::lock::write");
+        (**self).write()
+    }
+}
+
 fn ensure_file(file: &MemoryFile) -> VfsResult<()> {
     if file.file_type != VfsFileType::File {
         return Err(VfsErrorKind::Other("Not a file".into()).into());
